@@ -33,18 +33,25 @@ Record site := {
   s_kind   : akind;
   s_locks  : list (string * bool);  (* (lock field of the same object, exclusively held?) *)
   s_roles  : list string;           (* goroutine roles that may execute the site *)
-  s_phase  : N                      (* 0 object still local to its constructor; 1 inside Start,
-                                       before its first go statement; 2 running *)
+  s_phase  : N;                     (* early site (s_run = false): 0 = the object is still local to its
+                                       constructor, k >= 1 = k-th segment of Start (between its spawn
+                                       points), executed by the phase owner before the phase gate opens.
+                                       running site (s_run = true): birth = every goroutine that reaches
+                                       the site has passed the gates of all phases < s_phase *)
+  s_run    : bool;
+  s_final  : bool                   (* running site inside Stop after the struct's own goroutines have been
+                                       joined (WaitGroup.Wait): hand-listed edge "everything else on the
+                                       object happens-before it" *)
 }.
 
 Definition akind_of_N (n : N) : akind :=
   match n with 0%N => KRead | 1%N => KWrite | _ => KAtomic end.
 
-Definition raw_site := (string * string * string * N * list (string * bool) * list string * N)%type.
+Definition raw_site := (string * string * string * N * list (string * bool) * list string * N * bool * bool)%type.
 Definition mk_site (r : raw_site) : site :=
-  let '(st, f, fn, k, ls, rs, ph) := r in
+  let '(st, f, fn, k, ls, rs, ph, rn, fi) := r in
   {| s_struct := st; s_field := f; s_func := fn; s_kind := akind_of_N k;
-     s_locks := ls; s_roles := rs; s_phase := ph |}.
+     s_locks := ls; s_roles := rs; s_phase := ph; s_run := rn; s_final := fi |}.
 
 (* Conservative: an atomic access may be a store, so atomic/plain-read pairs conflict too. *)
 Definition kinds_conflict (a b : akind) : bool :=
@@ -63,6 +70,14 @@ Definition common_lock (a b : site) : bool :=
                     existsb (fun q => let '(m', x') := q in String.eqb m m' && (x || x')) (s_locks b))
           (s_locks a).
 
+(* a is an early site and b comes later: either b is (reached only by goroutines) born after a's
+   phase, or b is an early site of the same phase (same owner goroutine) *)
+Definition early_before (a b : site) : bool :=
+  negb (s_run a) && ((s_phase a <? s_phase b)%N || (negb (s_run b) && (s_phase a =? s_phase b)%N)).
+
+(* listed edge: a is an ordinary running site, b a final one *)
+Definition before_final (a b : site) : bool := s_run a && negb (s_final a) && s_run b && s_final b.
+
 Section Static.
   (* singleton st r = true : at most one goroutine of role r ever touches a given object of struct st
      (hand-listed in tools/translate/specs/C35.json, guarded by [launch_ok] below) *)
@@ -76,7 +91,8 @@ Section Static.
 
   Definition pair_ok (a b : site) : bool :=
     negb (same_loc a b) || negb (kinds_conflict (s_kind a) (s_kind b))
-    || (s_phase a <? 2)%N || (s_phase b <? 2)%N
+    || early_before a b || early_before b a
+    || before_final a b || before_final b a
     || common_lock a b || same_single a b.
 
   Definition well_protected (tbl : list site) : bool :=
@@ -161,8 +177,8 @@ Section Dynamic.
   (* what it means for a run to be a run of a program described by the table *)
   Variable singleton : string -> string -> bool.
   Variable owner : obj -> string -> string -> tid.   (* the one goroutine of a singleton role *)
-  Variable pown : obj -> N -> tid.                   (* constructor thread (0) / lifecycle thread (1) *)
-  Variable gate : obj -> N -> N.                     (* publication edge of phase 0 / phase 1 *)
+  Variable pown : obj -> N -> tid.                   (* constructor thread (0) / lifecycle thread (k >= 1) *)
+  Variable gate : obj -> N -> N.                     (* the gate that closes phase k *)
 
   Record conforms (tr : list ev) : Prop := {
     (* the locks the table lists at a site are really held there (syntactic Lock..Unlock regions) *)
@@ -174,13 +190,19 @@ Section Dynamic.
         singleton (s_struct a) r = true -> t = owner o (s_struct a) r;
     (* early-phase sites run on the phase owner, before it opens the phase gate *)
     cf_early : forall i t o s a,
-        at_ tr i (Acc t o s) -> site_at s = Some a -> (s_phase a < 2)%N ->
+        at_ tr i (Acc t o s) -> site_at s = Some a -> s_run a = false ->
         t = pown o (s_phase a) /\
         forall p t', at_ tr p (Post t' (gate o (s_phase a))) -> t' = t /\ i < p;
     (* any other goroutine reaches later-phase sites only through the gate *)
     cf_late : forall j t o s b p,
         at_ tr j (Acc t o s) -> site_at s = Some b -> (p < s_phase b)%N -> t <> pown o p ->
-        exists q, q < j /\ at_ tr q (Await t (gate o p))
+        exists q, q < j /\ at_ tr q (Await t (gate o p));
+    (* hand-listed edge: a final site is reached only after every other goroutine that touched the
+       object has signalled (wg.Done / return of the dependants' Stop) and been awaited *)
+    cf_final : forall i j t t' o s s' a b,
+        at_ tr i (Acc t o s) -> at_ tr j (Acc t' o s') -> t <> t' ->
+        site_at s = Some a -> site_at s' = Some b -> same_loc a b = true ->
+        before_final a b = true -> edge_covered tr i j
   }.
 End Dynamic.
 
@@ -204,4 +226,4 @@ Definition has_struct (tbl : list site) (st : string) : bool :=
 Definition lock_protected_pairs (tbl : list site) : nat :=
   length (flat_map (fun a => filter (fun b =>
      same_loc a b && kinds_conflict (s_kind a) (s_kind b) &&
-     negb (s_phase a <? 2)%N && negb (s_phase b <? 2)%N && common_lock a b) tbl) tbl).
+     s_run a && s_run b && common_lock a b) tbl) tbl).
